@@ -213,3 +213,78 @@ func HarnessC03UnaryErrorBody() {
 		check(ce.Message() == msg, "the error message sent by the server is decoded however the body is split across reads")
 	}
 }
+
+// lazyTrailerBody publishes the response's HTTP trailers when the body is
+// read to its end - not before - as net/http does.
+type lazyTrailerBody struct {
+	r       io.Reader
+	resp    *http.Response
+	trailer http.Header
+}
+
+func (b *lazyTrailerBody) Read(p []byte) (int, error) {
+	n, err := b.r.Read(p)
+	if err == errEOF() {
+		for k, v := range b.trailer {
+			b.resp.Trailer[k] = v
+		}
+	}
+	return n, err
+}
+func (b *lazyTrailerBody) Close() error { return nil }
+
+type c03Outcome struct {
+	msgs    int
+	code    Code
+	message string
+	meta    string
+}
+
+// HarnessC03GRPCStatusAfterLocalError: a gRPC response whose last message the
+// client rejects locally (it exceeds the read limit) and whose HTTP trailers -
+// published by the transport only at the end of the body - carry the
+// server's own verdict: what the client reports (code, message, trailing
+// metadata) must be the same whether end-of-file arrives together with the
+// last bytes or on a separate read, and wherever the body is split.
+//
+//verif:harness property=C03 stubs=json,wire
+func HarnessC03GRPCStatusAfterLocalError() {
+	body := append(refFrame(0, []byte{1}), refFrame(0, []byte{1, 2, 3, 4, 5, 6})...) // second message over the limit of 4
+	trailers := http.Header{"Grpc-Status": {"9"}, "Grpc-Message": {"verdict"}, "X-Trail": {"t"}}
+	run := func(src io.Reader) c03Outcome {
+		resp := &http.Response{StatusCode: 200, Status: "200 OK", ProtoMajor: 2, Header: http.Header{"Content-Type": {"application/grpc+proto"}}, Trailer: http.Header{}}
+		resp.Body = &lazyTrailerBody{r: src, resp: resp, trailer: trailers}
+		client := NewClient[[]byte, []byte](&cannedTransport{resp: resp}, stackURL, stackClientOptions(1, WithReadMaxBytes(4))...)
+		in := []byte{1}
+		var out c03Outcome
+		stream, err := client.CallServerStream(context.Background(), NewRequest(&in))
+		if err != nil {
+			out.code = CodeOf(err)
+			return out
+		}
+		for stream.Receive() {
+			out.msgs++
+			if out.msgs > 3 {
+				break
+			}
+		}
+		if serr := stream.Err(); serr != nil {
+			out.code = CodeOf(serr)
+			if ce, ok := asError(serr); ok {
+				out.message = ce.Message()
+			}
+		}
+		out.meta = stream.ResponseTrailer().Get("X-Trail")
+		_ = stream.Close()
+		return out
+	}
+	whole := run(&wholeReader{data: body})
+	at := nondetInt("splitAt")
+	assume(at >= 0 && at <= len(body))
+	split := run(&splitReader{data: body, at: at, eofWithLast: nondetBool("eofWithLast")})
+	check(whole.msgs == split.msgs, "segmentation does not change how many messages are delivered")
+	check(whole.code == split.code, "segmentation does not change the code the call ends with")
+	check(whole.message == split.message, "segmentation does not change the error message")
+	check(whole.meta == split.meta, "segmentation does not change the trailing metadata")
+	check(whole.code != 0, "a stream with a rejected message fails")
+}
